@@ -254,6 +254,102 @@ def _same_strand_val(a, b):
     return va == vb
 
 
+class CodingTranscriptFromChunk(Case):
+    """TranscriptInterval.from_chunk_relative_location(location, cds=<CDS on the chunk>): the rebuilt transcript has the
+    source CDS - its chromosome blocks and its CHROMOSOME-level frames, exactly as given (also frames that record a
+    frameshift, also on a reverse-strand chunk, where the chunk-relative frame list runs the other way)."""
+    props = ("C07", "C04", "C05", "C06")
+    func = "gene.transcript.TranscriptInterval.from_chunk_relative_location"
+    module = "gene.transcript"
+    shard_depth = 5
+    name = "TranscriptInterval.from_chunk_relative_location[2 exons, CDS with any frames, chunk of either strand]"
+    call = ("(lambda y: ([f.name for f in y.cds.frames], y.cds.chromosome_location, y.chromosome_location, y.strand))"
+            "(TranscriptInterval.from_chunk_relative_location(x.chunk_relative_location, cds=x.cds))")
+    ensures = {
+        "cds-frames-are-the-chromosome-level-frames-as-given": lambda i, r: list(r[0]) == list(i.fnames),
+        "cds-and-exon-blocks-are-the-lift": lambda i, r: And(
+            len(_bl(r[1])) == 2, len(_bl(r[2])) == 2,
+            *[And(a[0] == b[0], a[1] == b[1]) for a, b in zip(_bl(r[1]), i.blocks)],
+            *[And(a[0] == b[0], a[1] == b[1]) for a, b in zip(_bl(r[2]), i.blocks)]),
+        "chromosome-strand": lambda i, r: _same_strand_val(r[3], i.strand),
+    }
+
+    def inputs(self, S):
+        from .gene_common import block_lists, strand_of, FRAME
+        starts, ends = block_lists(S, "x", 2, allow_adjacent=False)
+        strand = strand_of(S, "strand")
+        cp, cs, ce, minus = chunk_parent_stranded(S)
+        S.assume(And(cs <= starts[0], ends[-1] <= ce))
+        frames = []
+        for k in range(2):
+            f = S.enum(FRAME, f"f{k}")
+            S.assume(Not(enum_name_is(f, "NONE")))
+            if S.mode == "sym":
+                f = S.e.enum_concretize(f)
+            frames.append(f)
+        x = S.new("gene.transcript.TranscriptInterval", starts, ends, strand, cds_starts=starts, cds_ends=ends,
+                  cds_frames=frames, parent_or_seq_chunk_parent=cp)
+        fnames = [(f.members[f.idx][0] if hasattr(f, "members") else f.name) for f in frames]
+        return NS(x=x, strand=strand, blocks=list(zip(starts, ends)), fnames=fnames,
+                  TranscriptInterval=S.cls("gene.transcript.TranscriptInterval"))
+
+    def samples(self, rng):
+        from .gene_common import sample_blocks
+        d = sample_blocks(rng, "x", 2, lo=2, gap=(1, 2, 3), length=(3, 4, 5, 7))
+        cs = rng.randint(0, d["x_starts"][0])
+        ce = d["x_ends"][-1] + rng.randint(0, 3)
+        d.update(strand=rng.choice(["PLUS", "MINUS"]), chunk_start=cs, chunk_end=ce, chunk_strand=rng.choice(["PLUS", "MINUS"]),
+                 chunk_seq="".join(rng.choice("ACGT") for _ in range(ce - cs)),
+                 f0=rng.choice(["ZERO", "ONE", "TWO"]), f1=rng.choice(["ZERO", "ONE", "TWO"]))
+        return d
+
+    def observe(self, r):
+        from .c02_single import obs_loc
+        from pyvc.check import default_observe as o
+        return [list(r[0]), obs_loc(r[1])[:3], obs_loc(r[2])[:3], o(r[3])]
+
+
+class LiftThroughNamedPlacements(Case):
+    """Three nested coordinate systems (chromosome with sequence <- contig WITHOUT sequence <- transcript), each lower
+    level placed by a location that NAMES the system it lies on (the seq_chunk_to_parent idiom): a child on the lowest
+    level lifts to the contig (offset of the transcript placement) and on to the chromosome (both offsets) - the chain
+    above an intermediate level is never lost."""
+    props = ("C04", "C19")
+    func = "location.location.Location.lift_over_to_first_ancestor_of_type"
+    module = "gene.interval"
+    name = "lift through three levels placed by locations that name their coordinate system[all PLUS, symbolic offsets]"
+    call = ("(lambda c, t: (c.start, c.end, t.start, t.end, t.parent.id))"
+            "(child.lift_over_to_first_ancestor_of_type('contig'), child.lift_over_to_first_ancestor_of_type('chromosome'))")
+    ensures = {
+        "contig-coordinates": lambda i, r: And(r[0] == i.q0 + i.a, r[1] == i.q0 + i.b),
+        "chromosome-coordinates": lambda i, r: And(r[2] == i.p0 + i.q0 + i.a, r[3] == i.p0 + i.q0 + i.b, r[4] == "chromosome"),
+    }
+
+    def inputs(self, S):
+        p0, p1, q0, q1, a, b = (S.int(n) for n in ("p0", "p1", "q0", "q1", "a", "b"))
+        text = S.symstr("seq")
+        S.assume(And(0 <= p0, p0 < p1, p1 <= slen(text), 0 <= q0, q0 < q1, q1 <= p1 - p0, 0 <= a, a < b, b <= q1 - q0))
+        plus = S.enum_const(STRAND, "PLUS")
+        top_seq = S.new(SEQUENCE, text, S.enum_const(ALPHABET, "NT_STRICT"), id="chromosome", type="chromosome",
+                        validate_alphabet=False)
+        placement1 = S.new(SINGLE, p0, p1, plus, parent=S.new(PARENT, id="chromosome", sequence_type="chromosome"))
+        upper1 = S.new(PARENT, location=placement1, sequence=top_seq)
+        placement2 = S.new(SINGLE, q0, q1, plus, parent=S.new(PARENT, id="contig", sequence_type="contig"))
+        upper2 = S.new(PARENT, location=placement2, parent=upper1)
+        level2 = S.new(PARENT, id="transcript", sequence_type="transcript", parent=upper2)
+        child = S.new(SINGLE, a, b, plus, parent=level2)
+        return NS(child=child, p0=p0, q0=q0, a=a, b=b)
+
+    def samples(self, rng):
+        p0 = rng.randint(0, 5)
+        q0 = rng.randint(0, 4)
+        a = rng.randint(0, 3)
+        b = a + rng.randint(1, 4)
+        q1 = q0 + b + rng.randint(0, 3)
+        p1 = p0 + q1 + rng.randint(0, 3)
+        return dict(p0=p0, p1=p1, q0=q0, q1=q1, a=a, b=b, seq="".join(rng.choice("ACGT") for _ in range(p1 + rng.randint(0, 3))))
+
+
 class ChunkInsideIntron(Case):
     """an interval with NO base in the chunk - here a two-block Feature / Transcript / CDS built on a chunk (either
     strand) that lies inside its intron, or entirely beside it - 'is empty rather than an error' (C07): construction
@@ -592,6 +688,7 @@ def _single_at(r, start, end):
 CASES = [LiftToChunk(), LiftRoundTrip(), LiftChunkToChunk(), LiftNestedToChunk(), LiftToStrandedChunk(),
          LiftStrandedChunkToChunk()]
 CASES += [FromChunkRelativeLocation(k, n) for k in ("feature", "transcript", "cds") for n in (1, 2)]
+CASES += [CodingTranscriptFromChunk(), LiftThroughNamedPlacements()]
 CASES += [ChunkInsideIntron(k) for k in ("feature", "transcript", "cds")]
 CASES += [LiftCompoundToChunk(2), LiftCompoundToChunk(3)]
 CASES += [ChildLocationOfParent(n, via) for n in (1, 2) for via in (
